@@ -143,11 +143,11 @@ def catalogue(rnd, quick):
     below the offending substring is written between « and »"""
     cases = []
 
-    def add(kind, pattern):
+    def add(kind, pattern, **opts):
         off = pattern.index("«")
         token = pattern[off + 1:pattern.index("»")]
         src = pattern.replace("«", "").replace("»", "")
-        cases.append((kind, src, token, off))
+        cases.append((kind, src, token, off, opts))
     ctxs = ["", "<p>é\n  text</p>\n", "<!-- c -->\n\n  "]
     for pre in ctxs:
         add("unknown-tal-statement", pre + '<a tal:«foo»="x">t</a>')
@@ -177,6 +177,13 @@ def catalogue(rnd, quick):
         add("i18n-name-duplicate", pre + '<p i18n:translate=""><a i18n:name="nm">t</a><b i18n:name="«nm»">u</b></p>')
         add("i18n-attributes-comma", pre + '<a title="t" i18n:attributes="«title, alt»">t</a>')
         add("i18n-attributes-3-words", pre + '<a title="t" i18n:attributes="«title a b»">t</a>')
+        add("i18n-attributes-3rd-spec", pre + '<a title="t" alt="a" i18n:attributes="title; alt;« longdesc a b»">t</a>')
+        add("reserved-name-3rd-in-tuple", pre + '<a tal:define="(a, b, «econtext») (1, 2, 3)">t</a>')
+        add("reserved-name-3rd-in-repeat-tuple", pre + '<a tal:repeat="(a, b, «rcontext») ((1, 2, 3),)">t</a>')
+        add("unknown-data-statement", pre + '<a data-tal-«foo»="1">t</a>', enable_data_attributes=True)
+        add("unknown-data-metal-statement", pre + '<a data-metal-«fill»="s">t</a>', enable_data_attributes=True)
+        add("expr-data-statement", pre + '<a data-tal-content="«a b»">t</a>', enable_data_attributes=True)
+        add("renamed-prefix-unknown-statement", pre + '<a xmlns:z="http://xml.zope.org/namespaces/tal" z:«nope»="1">t</a>')
         for bad in C.BAD_EXPRS:
             b = "«" + bad + "»"
             add("expr-content", pre + '<a tal:content="%s">t</a>' % b)
@@ -204,9 +211,9 @@ def _cases(cases):
     from chameleon import PageTemplate
     from chameleon.exc import TemplateError
     out = []
-    for kind, src, token, off in cases:
+    for kind, src, token, off, opts in cases:
         try:
-            PageTemplate(src)
+            PageTemplate(src, **opts)
         except TemplateError as e:
             tok = e.token
             toff = e.offset
